@@ -281,10 +281,15 @@ class Super:
                 if same: cands = same
         elif k == 'dep_member':
             b = ce.get('base', '')
+            typed = None
             if base in HANDLERS or base == 'start':
                 # only a call on this object / a family object, never on the outer receiver
-                if b != 'this' and not re.search(r'(^|\.)(op_?|self|this)$', b): return []
+                if b != 'this' and not re.search(r'(^|\.)(op_?|self|this)$', b):
+                    typed = self._field_record(f, b)
+                    if typed is None: return []
             pool = [g for fam in self.families for g in F.by_family.get(fam, []) if g['name'] == base and not g.get('lambda') and g.get('blocks')]
+            if typed is not None:
+                pool = [g for g in pool if g.get('record') == typed]
             if b == 'this':
                 same = [g for g in pool if g.get('record') == f.get('record')]
                 if same: pool = same
@@ -328,6 +333,26 @@ class Super:
                 for pn, lam in zip(ps, lams): b[pn] = lam
             out.append((g, b))
         return out
+
+    def _field_record(self, f, basepath):
+        """the family record that is the declared type of field `x` for a base path ending in .x (x declared in f's record)"""
+        fld = last_field(basepath)
+        here = f.get('record') or (f.get('parent_fn') or '').split('@')[0].rsplit('::', 1)[0]
+        for r in self.F.rec_by_q.get(here, []):
+            for fl in r['fields']:
+                if fl['name'] != fld: continue
+                t = (fl.get('wtype') or fl.get('type', '')).strip()
+                if re.fullmatch(r'(const\s+)?[A-Za-z]*Receiver\d?\s*&{0,2}', t): return None     # the outer receiver (a template parameter)
+                best = None
+                for rr in self.F.recs:
+                    if rr['_family'] not in self.families: continue
+                    nm = rr['qname'].split('::')[-1]
+                    if nm in ('type',): nm = rr['qname'].split('::')[-2]
+                    for cand in {nm, nm.lstrip('_')}:
+                        if cand and re.match(r'(const\s+)?(typename\s+)?' + re.escape(cand) + r'\b', t):
+                            if best is None or len(rr['qname']) > len(best): best = rr['qname']
+                return best
+        return None
 
     def _bases(self, rq):
         out = set()
